@@ -73,6 +73,63 @@ def oracle_mat(line, out):
     exp = ";".join(",".join(impl_ps.gi(x) for x in row) for row in m)
     return None if exp == out else f"get_matrix({p}) differs from the Kronecker product of the 2x2 Pauli matrices"
 
+# ---- operands that are not freshly parsed: results of copies, in-place edits, tensoring, slicing, products
+def build_operand(tok):
+    """tok = text~kind~k~L ; returns the PauliString the recipe yields"""
+    import copy as _copy
+    txt, kind, k, L = tok.split("~")
+    k = int(k)
+    A = impl_ps.mk(txt)
+    n = len(A)
+    if kind == "fresh" or n == 0:
+        return A
+    k = k % n
+    if kind == "copy-edit-copy":
+        C = A.copy(); C[k] = L; return A
+    if kind == "copy-edit-orig":
+        C = A.copy(); A[k] = L; return C
+    if kind == "ccopy-edit-copy":
+        C = _copy.copy(A); C.set_substring(k, L); return A
+    if kind == "ccopy-edit-orig":
+        C = _copy.copy(A); A.set_substring(k, L); return C
+    if kind == "edited":
+        A[k] = L; return A
+    if kind == "inc":
+        A.inc(); return A
+    if kind == "tensor":
+        return impl_ps.mk(txt[:k]) + impl_ps.mk(txt[k:]) if 0 < k else A.tensor(impl_ps.mk(""))
+    if kind == "substr":
+        return impl_ps.mk(L * (k + 1) + txt + L).get_substring(k + 1, n)
+    if kind == "product":
+        B_ = impl_ps.mk((L * n)[:n]); return (A @ B_) @ B_
+    if kind == "expand-edit":
+        E = A.expand(n + 1); A[k] = L; return E
+    raise KeyError(kind)
+
+KINDS = ["fresh", "copy-edit-copy", "copy-edit-orig", "ccopy-edit-copy", "ccopy-edit-orig", "edited", "inc", "tensor", "substr", "product", "expand-edit"]
+
+def derived_handle(line):
+    try:
+        _, a, b = line.split(" ")
+        P, Q = build_operand(a), build_operand(b)
+        return f"p={pstr(P)} q={pstr(Q)} " + impl_ps.pair_of(P, Q) + " mat=" + ("ok" if (len(P) > 4 or np.allclose(P.get_matrix(), dense(str(P)))) else "differs")
+    except Exception as e:
+        return exc_name(e)
+
+def oracle_derived(line, out):
+    if out.startswith("!"):
+        return f"building the operands raised {out}"
+    f = dict(x.split("=", 1) for x in out.split(" "))
+    p, q = ("" if f["p"] == "-" else f["p"]), ("" if f["q"] == "-" else f["q"])
+    got = out.split(" ", 2)[2].rsplit(" mat=", 1)[0]
+    exp = expected_pair(p, q)
+    if got != exp:
+        return (f"operands built by {line.split(' ')[1]} and {line.split(' ')[2]} have texts {p},{q}; implementation says [{got}] "
+                f"but the matrices of these texts say [{exp}]")
+    if f["mat"] != "ok":
+        return f"get_matrix() of the operand built by {line.split(' ')[1]} differs from the Kronecker product of its text {p}"
+    return None
+
 def rand_str(rng, n, w=None):
     return "".join(rng.choice("IXYZ") for _ in range(n))
 
@@ -115,9 +172,18 @@ def build_streams(rng, tier):
         else:
             strs = [rand_str(rng, n) for _ in range(40)]
         mats += [f"mat {p or '-'}" for p in strs]
+    der = []
+    for _ in range(20000 if thorough else 4000):
+        n = rng.choice([1, 2, 2, 3, 3, 4, 5, 8])
+        toks = []
+        for _t in range(2):
+            toks.append(f"{rand_str(rng, n)}~{rng.choice(KINDS)}~{rng.randrange(n)}~{rng.choice('IXYZ')}")
+        der.append("dpair " + " ".join(toks))
     h = impl_ps.handle
     nt = lambda l, o: "I" in l or "X" in l
     return [
+        Stream("pairs-of-derived-operands", der, derived_handle, oracle_derived, model=False,
+               tag=lambda l, o: "kinds:" + "+".join(sorted(t.split("~")[1] for t in l.split(" ")[1:]))[:0] + ("err" if o.startswith("!") else "ok")),
         Stream("corpus", corpus_lines(PID), h, lambda l, o: (oracle_pair if l.startswith("pair") else oracle_mat)(l, o)),
         Stream("pairs-exhaustive-n<=3", ex, h, oracle_pair, nontrivial=nt, tag=lambda l, o: "comm=" + o.split("comm=")[1][:1]),
         Stream("pairs-random", rnd, h, oracle_pair, nontrivial=nt, tag=lambda l, o: "sign=" + o.split(" ")[0][5:]),
@@ -127,7 +193,8 @@ def build_streams(rng, tier):
 
 RULE = ("exhaustive ordered pairs of strings of length 0..3 (1+16+256+4096), seeded random pairs of equal length "
         "4..64 (thorough ..256; equal / nearly equal / independent), unequal-length pairs, get_matrix() for all strings "
-        "n<=3; a case is non-trivial if it contains a non-identity letter; distinct = distinct protocol lines")
+        "n<=3; pairs of operands that are NOT freshly parsed (11 recipes: copies edited on either side, in-place edits, inc, tensor, "
+        "get_substring, products, expand) judged against the matrices of their texts; a case is non-trivial if it contains a non-identity letter; distinct = distinct protocol lines")
 
 def main(tier):
     return standard_main(PID, tier, "proof", THEOREMS, IMPORTS, build_streams, rule=RULE,
